@@ -169,7 +169,8 @@ StepCheck(e) ==
                  ELSE IF ~CheckExact(rep, bad, e.upTo, THead)
                         THEN {Alarm("CheckExact", e, IF rep \subseteq bad THEN "missed-faulty-round" ELSE "reported-sound-round")}
                         ELSE {}
-         A2 == IF ~aborted /\ rep # CheckOp(ts, sc.chained, e.upTo) THEN Conf(e, "reported set differs from CheckOp") ELSE {}
+         A2 == IF aborted # LastUnreadable(ts, sc.chained) THEN Conf(e, "the check aborts exactly when Last() is unreadable")
+               ELSE IF ~aborted /\ rep # CheckOp(ts, sc.chained, e.upTo) THEN Conf(e, "reported set differs from CheckOp") ELSE {}
          A3 == IF e.head >= 0 /\ e.head # THead THEN Conf(e, "head differs from the tracked store") ELSE {}
      IN /\ alarms' = alarms \cup A1 \cup A2 \cup A3
         /\ info' = [info EXCEPT !.reported = rep, !.checked = TRUE]
